@@ -140,6 +140,62 @@ theorem no_effect_without_digest (cfg : Cfg C) (inputs : List (Env × In D)) :
       · obtain ⟨pre, y, post, hsplit, hp⟩ := ih _ (f.wf hwf) h1' se hse e he hg
         exact ⟨(env, i) :: pre, y, post, by rw [hsplit]; rfl, hp⟩
 
+/-- (every cookie different from the real one) A peer that computes all its digests with another
+cookie `cookie'` — whatever challenges it applies it to — is never authenticated and causes no
+gated effect, PROVIDED the digest function separates the two cookies:
+`hsep : ∀ c c', H cookie' c' ≠ H cookie c`. This hypothesis is the only place where a property of
+`H` is used. For the real `challenge_digest` it is SHA-256 collision resistance (assumed) together
+with the fact that the whole cookie and the whole challenge are fed to SHA-256 — the latter is
+what the `digest` ops of the correspondence harness check on the real function. -/
+theorem wrong_cookie_never_authenticated (cfg : Cfg C) (cookie' : C)
+    (hsep : ∀ c c', H cookie' c' ≠ H cfg.cookie c)
+    (inputs : List (Env × In D))
+    (hpeer : ∀ x ∈ inputs, ∀ dg, digestOf x.2 = some dg → ∃ c', dg = H cookie' c') :
+    (stateAfter H cfg (init cfg : SState D) inputs).auth.isOk = false ∧
+    ∀ se ∈ run H cfg (init cfg : SState D) inputs, ∀ e ∈ se.2, e.gated = false := by
+  obtain ⟨hwf, hno⟩ := init_wf H cfg
+  -- no input can present the expected digest
+  have hnever : ∀ pre x post, inputs = pre ++ x :: post →
+      ¬ presents H cfg.cookie (stateAfter H cfg (init cfg : SState D) pre).auth x.2 := by
+    intro pre x post hsplit hp
+    have hx : x ∈ inputs := by rw [hsplit]; simp
+    generalize (stateAfter H cfg (init cfg : SState D) pre).auth = a at hp
+    obtain ⟨env, i⟩ := x
+    cases i with
+    | frame f =>
+      cases f with
+      | auth m =>
+        cases m with
+        | clientChallenge c2 dg =>
+          obtain ⟨c', hc'⟩ := hpeer (env, _) hx dg rfl
+          cases a with
+          | server s =>
+            cases s <;> simp only [presents] at hp
+            rename_i c d
+            exact hsep c c' (by rw [← hc', hp.1, hp.2])
+          | client cl => cases cl <;> simp only [presents] at hp
+        | serverAck dg =>
+          obtain ⟨c', hc'⟩ := hpeer (env, _) hx dg rfl
+          cases a with
+          | server s => cases s <;> simp only [presents] at hp
+          | client cl =>
+            cases cl <;> simp only [presents] at hp
+            rename_i n cs sc reply ours e
+            exact hsep ours c' (by rw [← hc', hp.1, hp.2])
+        | _ => cases a <;> rename_i z <;> cases z <;> simp only [presents] at hp
+      | _ => cases a <;> rename_i z <;> cases z <;> simp only [presents] at hp
+    | _ => cases a <;> rename_i z <;> cases z <;> simp only [presents] at hp
+  constructor
+  · cases hh : (stateAfter H cfg (init cfg : SState D) inputs).auth.isOk
+    · rfl
+    · obtain ⟨pre, x, post, hs, hp⟩ := authenticated_requires_digest H cfg inputs _ hwf hno hh
+      exact absurd hp (hnever pre x post hs)
+  · intro se hse e he
+    cases hg : e.gated
+    · rfl
+    · obtain ⟨pre, x, post, hs, hp⟩ := no_effect_without_digest H cfg inputs _ hwf hno se hse e he hg
+      exact absurd hp (hnever pre x post hs)
+
 /-- (close is final) Once an authentication state machine is `Close` the session is never
 authenticated again, for every continuation. -/
 theorem close_is_final (cfg : Cfg C) (inputs : List (Env × In D)) :
@@ -336,6 +392,7 @@ end C17
 #print axioms C17.authenticated_requires_digest
 #print axioms C17.init_wf
 #print axioms C17.no_effect_without_digest
+#print axioms C17.wrong_cookie_never_authenticated
 #print axioms C17.close_is_final
 #print axioms C17.close_stops_session
 #print axioms C17.auth_violation_stops_session
